@@ -160,9 +160,24 @@ static void *asm_mmap_file(char *asm_file, size_t *str_len) {
 
   // NOLINTNEXTLINE
   FAIL_SYS(fstat(fd, &file_stat), "failed to get file stats\n", MAP_FAILED);
-  // map file contents to a string
-  *str_len = file_stat.st_size;
-  void *str = mmap(NULL, *str_len, PROT_READ, MAP_PRIVATE, fd, 0);
+  // copy the file contents into an anonymous (zero-filled) mapping that is one
+  // byte longer than the file: the parser needs a NUL-terminated string, which
+  // a mapping of the file itself cannot provide when the size is a multiple of
+  // the page size, and an empty file cannot be mapped at all
+  size_t file_len = file_stat.st_size;
+  *str_len = file_len + 1;
+  char *str = mmap(NULL, *str_len, PROT_READ | PROT_WRITE,
+                   MAP_PRIVATE | MAP_ANONYMOUS, -1, 0);
+  size_t done = 0;
+  while (str != MAP_FAILED && done < file_len) {
+    ssize_t got = read(fd, str + done, file_len - done);
+    if (got <= 0) {
+      munmap(str, *str_len);
+      str = MAP_FAILED;
+      break;
+    }
+    done += got;
+  }
   close(fd);
   return str;
 }
